@@ -1098,3 +1098,38 @@ MUTANTS += [
     dict(name='open_file_creates_missing', props=['C11', 'C17'], rules=['ERR3'], desc='open_file opens with create(true): a listed file that went missing is recreated empty',
          edits=[(DIR, 'OpenOptions::new().read(true).write(true).open(filepath)?;', 'OpenOptions::new().read(true).write(true).create(true).truncate(false).open(filepath)?;')]),
 ]
+
+MUTANTS += [
+    dict(name='metas_taken_buffer_kept', props=['C16'], rules=['MA3b'], desc='truncate beyond the end drops the metas with mem::take but keeps the payload buffer',
+         edits=[(Q, """        if truncate_up_to_pos + 1 >= self.next_position() {
+            self.start_position = truncate_up_to_pos + 1;
+            self.concatenated_records.clear();
+            let record_count = self.record_metas.len();
+            self.record_metas.clear();
+            return record_count;
+        }""", """        if truncate_up_to_pos >= self.next_position() {
+            self.start_position = truncate_up_to_pos + 1;
+            return std::mem::take(&mut self.record_metas).len();
+        }
+        if truncate_up_to_pos + 1 >= self.next_position() {
+            self.start_position = truncate_up_to_pos + 1;
+            self.concatenated_records.clear();
+            let record_count = self.record_metas.len();
+            self.record_metas.clear();
+            return record_count;
+        }""")]),
+    dict(name='policy_division_by_interval', props=['C14'], rules=['NI8'], desc='update_persisted advances the deadline by whole intervals (divides by the interval)',
+         edits=[(PP, '            } => *next_persist = Instant::now() + *interval,', """            } => {
+                let late_by = Instant::now().saturating_duration_since(*next_persist);
+                let missed_ticks = (late_by.as_nanos() / interval.as_nanos()) as u32;
+                *next_persist += *interval * (missed_ticks + 1);
+            }""")]),
+    dict(name='gc_bytes_assigned_not_added', props=['C15'], rules=['BY7'], desc='the position pass overwrites the running byte count instead of adding to it',
+         edits=[(MRL, '            num_bytes_written += self.record_log_writer.write_record(record)?;\n        }\n        if num_bytes_written > 0 {', '            num_bytes_written = self.record_log_writer.write_record(record)?;\n        }\n        if num_bytes_written > 0 {')]),
+    dict(name='truncate_swallows_gc_error', props=['C15', 'C03'], rules=['ERR4'], desc='truncate logs and ignores an error of the GC pass',
+         edits=[(MRL, '        num_bytes_written += self.run_gc_if_necessary()?;\n        self.persist_on_policy()?;', """        match self.run_gc_if_necessary() {
+            Ok(gc_num_bytes) => num_bytes_written += gc_num_bytes,
+            Err(io_err) => warn!(error=?io_err, "gc failed"),
+        }
+        self.persist_on_policy()?;""")]),
+]
